@@ -136,10 +136,9 @@ pub fn apply_all(l: &Ledger, w: &StdWorld, seq: &[Op]) -> Ledger {
     for op in seq {
         let s = ops::apply(&cur, w, op);
         if !s.outcome.ok() {
-            svm::set_capture_logs(true);
-            svm::set_record_cpi(true);
-            let again = ops::apply(&cur, w, op);
-            panic!("root builder: op {op:?} failed: {} / again: {} logs: {:#?} cpis: {:?}", s.outcome.short(), again.outcome.short(), again.outcome.logs, again.outcome.cpi_log);
+            // truncate the root here: the state reached so far is still explored and judged (see report::BUILD_FAILURES)
+            crate::report::BUILD_FAILURES.lock().unwrap().push(format!("root builder: op {op:?} failed: {}", s.outcome.short()));
+            return cur;
         }
         cur = s.ledger;
     }
